@@ -36,6 +36,21 @@ Whnf(t, ctx, f) ==
                      IF fc.t.k = "true" THEN Whnf(t.a, ctx, fc.f) ELSE IF fc.t.k = "false" THEN Whnf(t.b, ctx, fc.f) ELSE W([t EXCEPT !.c = fc.t], fc.f)
     [] OTHER -> W(t, f)
 
+\* full normal form (weak-head normalise, then normalise every subterm; under a binder the parameter is opaque)
+RECURSIVE Nf(_,_,_)
+Nf(t, ctx, f) ==
+  LET w == Whnf(t, ctx, f) IN IF ~w.ok THEN OutOfFuel ELSE
+  LET h == w.t  g == w.f IN
+  CASE h.k \in {"lam","pi"} -> LET a == Nf(h.a, ctx, g) IN IF ~a.ok THEN OutOfFuel ELSE
+                               LET b == Nf(h.b, PushParam(ctx, h.a), a.f) IN IF ~b.ok THEN OutOfFuel ELSE W([h EXCEPT !.a = a.t, !.b = b.t], b.f)
+    [] h.k \in {"app","bin"} -> LET a == Nf(h.a, ctx, g) IN IF ~a.ok THEN OutOfFuel ELSE
+                               LET b == Nf(h.b, ctx, a.f) IN IF ~b.ok THEN OutOfFuel ELSE W([h EXCEPT !.a = a.t, !.b = b.t], b.f)
+    [] h.k = "neg" -> LET a == Nf(h.a, ctx, g) IN IF ~a.ok THEN OutOfFuel ELSE W([h EXCEPT !.a = a.t], a.f)
+    [] h.k = "if" -> LET c == Nf(h.c, ctx, g) IN IF ~c.ok THEN OutOfFuel ELSE
+                     LET a == Nf(h.a, ctx, c.f) IN IF ~a.ok THEN OutOfFuel ELSE
+                     LET b == Nf(h.b, ctx, a.f) IN IF ~b.ok THEN OutOfFuel ELSE W([h EXCEPT !.c = c.t, !.a = a.t, !.b = b.t], b.f)
+    [] OTHER -> W(h, g)
+
 \* conversion: [r |-> "yes" | "no" | "fuel", f]; lambda annotations are ignored
 CR(r, f) == [r |-> r, f |-> f]
 RECURSIVE Conv(_,_,_,_)
